@@ -596,6 +596,7 @@ def make_args(rng, n, hbar):
     a["polys"] = polys
     sels = S.ordered_subsets(n) if n <= 3 else [s for s in S.ordered_subsets(n) if rng.random() < 0.25]
     a["sels"] = sels
+    a["qmode"] = rng.randrange(n)
     return a
 
 
@@ -646,6 +647,13 @@ def observe(sf, st, rep, n, D, args):
             o["number:" + key] = r if is_exc(r) else np.array(r, dtype=float)
         if not fock:
             o["displacement:" + key] = call(lambda: np.array(st.displacement(list(ms))))
+    if n <= 2:
+        # marginals of the Wigner function (BaseState.x_quad_values / p_quad_values integrate wigner() with Simpson's rule)
+        m = args["qmode"]
+        gx = np.linspace(-7, 7, 57) * math.sqrt(sf.hbar / 2)
+        gp = np.linspace(-7.5, 7.5, 61) * math.sqrt(sf.hbar / 2)
+        o[f"x_quad_values:{m}"] = call(lambda: np.array(st.x_quad_values(m, gx, gp)))
+        o[f"p_quad_values:{m}"] = call(lambda: np.array(st.p_quad_values(m, gx, gp)))
     o["fidelity_vacuum"] = call(st.fidelity_vacuum)
     o["fidelity_coherent"] = call(st.fidelity_coherent, list(args["alphas"]))
     o["fidelity_coherent0"] = call(st.fidelity_coherent, [0.0] * n)
@@ -696,6 +704,19 @@ def expected_ps(ps, n, D, args, hbar):
     e["fidelity_coherent0"] = e["fidelity_vacuum"]
     for i, p in enumerate(args["polys"]):
         e[f"polymean:{i}"] = ps.poly_mean(np.array(p["A"]), np.array(p["d"]), p["k"], p["phi"])
+    return e
+
+
+def expected_marginals(ps, n, args, hbar):
+    """x / p marginals of the Wigner function of one mode: normal densities with the moments of the reference"""
+    e = {}
+    if n <= 2:
+        m = args["qmode"]
+        gx = np.linspace(-7, 7, 57) * math.sqrt(hbar / 2)
+        gp = np.linspace(-7.5, 7.5, 61) * math.sqrt(hbar / 2)
+        for name, grid, phi in (("x_quad_values", gx, 0.0), ("p_quad_values", gp, math.pi / 2)):
+            mean, var = ps.quad(m, phi)
+            e[f"{name}:{m}"] = np.exp(-0.5 * (grid - mean) ** 2 / var) / math.sqrt(2 * math.pi * var)
     return e
 
 
@@ -939,6 +960,7 @@ def check_cross_once(ctx, sf, spec, hbar, D, seed, reps=None):
     ps = S.PS(ref, hbar)
     args = make_args(rng, n, hbar)
     e_ps = expected_ps(ps, n, D, args, hbar)
+    e_marg = expected_marginals(ps, n, args, hbar)
     fock_ok = n <= 3 and not any(o["cls"] == "ThermalLossChannel" for o in spec["ops"])
     all_reps = ["gaussian", "bosonic"] + (["fock-mixed"] if fock_ok else []) + \
         (["fock-pure"] if fock_ok and S.gate_only(spec["ops"]) else [])
@@ -960,10 +982,12 @@ def check_cross_once(ctx, sf, spec, hbar, D, seed, reps=None):
             tolF = 1e-6 + 30 * D * D * max(0.0, 1 - fk.tr)
             compare(ctx, rep, o, e_ps, tolF, "phase-space-reference", rp,
                     skip=("means", "cov", "is_pure", "purity", "trace"))
+            compare(ctx, rep, o, e_marg, max(tolF, 2e-4), "phase-space-reference", rp)
             internal_identities(ctx, rep, o, n, D, rp, 1e-9)
             backend_state_selections(ctx, sf, eng, rep, n, full, ps, rp, rng)
         else:
             compare(ctx, rep, o, e_ps, 1e-8, "phase-space-reference", rp)
+            compare(ctx, rep, o, e_marg, 2e-4, "phase-space-reference", rp)     # Simpson's rule on a finite grid
             internal_identities(ctx, rep, o, n, D, rp, 1e-8)
             backend_state_selections(ctx, sf, eng, rep, n, None, ps, rp, rng)
             # the Gaussian helpers that only make sense mode by mode (called last: see ASSUMPTIONS of C15)
